@@ -21,7 +21,7 @@ META = {
     "stubs": ["none for the geometry itself: RegionGeom.__init__ and throw run from /repo's source under the shim"],
     "assumptions": ["REAL mode with algebraised trigonometry", "generalisation cuts: every fresh symbol carries only facts that were proved about the real term in the init-lemma job"],
 }
-LEDGER = {"quick": 140, "thorough": 150}
+LEDGER = 185
 
 
 def _init(C, symbolic_det=False):
@@ -268,6 +268,39 @@ def beta_run():
     return run
 
 
+def _concrete_geom(ns):
+    """RegionGeom built by the real __init__ on the default (concrete) configuration: every attribute
+    __init__ creates exists, without dragging the symbolic-configuration facts into the context."""
+    import math
+
+    pos = type("P", (), {"altitude": SV(c=Fr(525)), "latitude": SV(c=Fr(0)), "longitude": SV(c=Fr(0))})()
+    det = type("D", (), {"initial_position": pos, "sun_moon": type("SM", (), {"sun_moon_cuts": True})()})()
+    sim = type("S", (), {"mode": "Diffuse", "angle_from_limb": SV(c=core.lit_fr(math.radians(7))), "max_cherenkov_angle": SV(c=core.lit_fr(math.radians(3))),
+                         "max_azimuth_angle": SV(c=core.lit_fr(math.radians(360)))})()
+    return ns["RegionGeom"](type("Cfg", (), {"detector": det, "simulation": sim})())
+
+
+def _copy_plain_attrs(ns, g):
+    """Non-numeric attributes that the real __init__ creates (caches, flags, ...) are copied from a throw-away
+    object initialised in a scratch context, so that methods relying on them run on harness-built objects."""
+    import copy
+
+    from symnp.core import Ctx
+
+    old = Ctx.current
+    Ctx.current = Ctx(prune=False)
+    try:
+        tmp = _concrete_geom(ns)
+    finally:
+        Ctx.current = old
+    for k, v in vars(tmp).items():
+        if not isinstance(v, (SV, SymArray)) and not hasattr(v, "simulation"):
+            try:
+                setattr(g, k, copy.deepcopy(v))
+            except Exception:
+                pass
+
+
 def along_run(s_zero, pinned=False):
     """find_lat_long_along_traj on a RegionGeom whose per-event attributes are generalised to free
     angles (the function only reads attributes): s = 0 must return the ground spot; for s > 0 the
@@ -276,6 +309,7 @@ def along_run(s_zero, pinned=False):
     def run(C):
         ns = gm.load_geom()
         g = object.__new__(ns["RegionGeom"])
+        _copy_plain_attrs(ns, g)
         R = SV.of(6378.1)
         g.earth_radius = R
         th, ph, thNV, azi = (core.free_angle(n) for n in ("thetaTrSubV", "phiTrSubV", "thetaNSubV", "aziAngVSubN"))
@@ -427,15 +461,16 @@ def fp_face_job(lo_alt=30.0, hi_alt=40.0):
     return {"verdicts": verdicts, "queries": 1 + ok, "paths": 1, "solver_time": dt, "info": [{"transcription_checked_on": ok}]}
 
 
-def _geom_sampler(symbolic_det=False, generalised=True, sliced=False):
+def _geom_sampler(symbolic_det=False, generalised=True, sliced=False, steep=False):
     import math
 
     def s(rng):
         R = 6378.1
-        h = float(10 ** rng.uniform(0, 3.3))
+        steep_now = steep and rng.uniform() < 0.7  # steep lines of sight reach emergence angles around the 42 deg cut
+        h = float(10 ** rng.uniform(2.3, 4)) if steep_now else float(10 ** rng.uniform(0, 3.3))
         r = R + h
         aH = math.pi / 2 - math.acos(R / r)
-        limb = float(rng.uniform(0.05, 0.95) * aH)
+        limb = float(rng.uniform(0.6, 0.98) * aH) if steep_now else float(rng.uniform(0.05, 0.95) * aH)
         v = {"det_alt": h, "limb": limb, "max_cher": float(rng.uniform(0.01, 1.2)), "max_az": float(rng.uniform(0.1, 2 * math.pi))}
         if symbolic_det:
             v["detLat"], v["detLong"] = float(rng.uniform(-1.4, 1.4)), float(rng.uniform(-3, 3))
@@ -474,7 +509,72 @@ def job_spot(tier):
 
 def job_beta(tier):
     return harness.run_job("throw: emergence angle and validity mask", beta_run(), timeout_ms=60000 if tier == "quick" else 600000, second=(tier == "thorough"), prune_timeout_ms=4000,
-                           witness=(_geom_sampler(sliced=True), 20))
+                           witness=(_geom_sampler(sliced=True, steep=True), 120))
+
+
+def rethrow_run():
+    """throw, query the positions, throw AGAIN on the same object, query again: the second answer must
+    belong to the second throw (no state kept from the first)."""
+
+    def run(C):
+        ns, cfg, inp, g = _generalised(C, symbolic_det=False)
+        f, cut = gm.throw_slices(ns)
+        res = []
+        for rnd in (1, 2):
+            L = z3.Real(f"L_{rnd}")
+            C.assume(L >= inp["Lmin"], L <= inp["Lmax"], L > 0)
+            g.losPathLen = SymArray([SV(t=L)], "float")
+            us = [z3.Real(f"u{k}_r{rnd}") for k in range(1, 5)]
+            for x in us:
+                C.assume(x >= 0, x <= 1)
+            f(g, gm.U4([SymArray([SV(t=x)], "float") for x in us]))
+            g.event_mask = SymArray([SV(c=True, kind="B")], "bool")  # the event of interest is a kept one
+            acc = {}
+            for name, attr, conv in (("betas", "betaTrSubN", None), ("thetas", "thetaTrSubV", None), ("phis", "phiTrSubV", None), ("pathLens", "losPathLen", None),
+                                     ("valid_costhetaTrSubN", "costhetaTrSubN", None), ("valid_costhetaNSubV", "costhetaNSubV", None), ("valid_costhetaTrSubV", "costhetaTrSubV", None),
+                                     ("valid_longS", "longS", None), ("valid_latS", "latS", None), ("valid_elevAngVSubN", "elevAngVSubN", None), ("valid_aziAngVSubN", "aziAngVSubN", None),
+                                     ("valid_latS_rad", "latS", "rad"), ("valid_longS_rad", "longS", "rad"), ("beta_rad", "betaTrSubN", "rad")):
+                got = SV.of(getattr(g, name)()[0])
+                want = SV.of(getattr(g, attr)[0])
+                if conv == "rad":
+                    want = core.sv_radians(want)
+                acc[name] = (got, want)
+            res.append(acc)
+        claims = {}
+        for rnd, acc in enumerate(res, 1):
+            for name, (got, want) in acc.items():
+                claims[f"throw {rnd} on the same object: {name}() returns THIS throw's values"] = got.term() == want.term()
+        inputs = dict(inp)
+
+        def skip(tag, where):
+            try:
+                ln = int(where.rsplit(":", 1)[1])
+            except Exception:
+                ln = 0
+            return _skip_origin(tag, where) or ("definedness of throw / find_lat_long_along_traj is established by the spot, angle and s = 0 jobs" if ln > 100 else None)
+
+        return harness.Out(claims=claims, inputs=inputs, skip_defd=skip)
+
+    return run
+
+
+def _rethrow_sampler():
+    base = _geom_sampler()
+
+    def s(rng):
+        v = base(rng)
+        for rnd in (1, 2):
+            v[f"L_{rnd}"] = float(rng.uniform(v["Lmin"], v["Lmax"]))
+            for k in range(1, 5):
+                v[f"u{k}_r{rnd}"] = float(rng.uniform(0.01, 0.99))
+        return v
+
+    return s
+
+
+def job_rethrow(tier):
+    return harness.run_job("throw twice on one object, then the per-event accessors", rethrow_run(), timeout_ms=20000 if tier == "quick" else 120000, prune_timeout_ms=4000,
+                           witness=(_rethrow_sampler(), 12))
 
 
 def job_along(s_zero, tier):
@@ -490,7 +590,7 @@ def job_fp_face(tier):
 def jobs(tier, seed):
     return [("init", "job_init", {"tier": tier}), ("bracket", "job_bracket", {"tier": tier}), ("cubic", "job_cubic", {"tier": tier}),
             ("spot", "job_spot", {"tier": tier}), ("beta", "job_beta", {"tier": tier}), ("along0", "job_along", {"s_zero": True, "tier": tier}),
-            ("alongs", "job_along", {"s_zero": False, "tier": tier}), ("fp", "job_fp_face", {"tier": tier})]
+            ("alongs", "job_along", {"s_zero": False, "tier": tier}), ("fp", "job_fp_face", {"tier": tier}), ("rethrow", "job_rethrow", {"tier": tier})]
 
 
 def replay(v):
@@ -534,7 +634,76 @@ def replay(v):
             return {"reproduced": True, "key": "find_lat_long_along_traj(s > 0): ground offset inconsistent with the emergence angle",
                     "detail": f"s = {s} km, 400 thrown events (seed 1): ground offset differs from the value implied by beta by up to {rel*100:.2f} % (azimuth convention of the frame chain differs from the emergence-angle formula)"}
         return {"reproduced": False, "key": None, "detail": f"max relative offset error {rel}"}
+    if job.startswith("throw twice"):
+        from nuspacesim.config import NssConfig
+        from nuspacesim.simulation.geometry.region_geometry import RegionGeom
+
+        cfg = NssConfig()
+        cfg.detector.initial_position.latitude, cfg.detector.initial_position.longitude = 0.3, 0.7
+        with warnings.catch_warnings(), np.errstate(all="ignore"):
+            warnings.simplefilter("ignore")
+            g = RegionGeom(cfg)
+            rng = np.random.default_rng(2)
+            worst = 0.0
+            for rnd in range(3):
+                g.throw(rng.uniform(1e-6, 1 - 1e-6, (4, 50)))
+                try:
+                    lat, lon = g.find_lat_long_along_traj(np.zeros(int(g.event_mask.sum())))
+                except Exception as ex:
+                    return {"reproduced": True, "key": "positions after a repeated throw on one object are wrong (state kept from an earlier throw)",
+                            "detail": f"throw number {rnd+1} on the same object: find_lat_long_along_traj raised {type(ex).__name__}: {ex}"}
+                want = np.radians(g.latS[g.event_mask])
+                worst = max(worst, float(np.max(np.abs(lat - want)))) if len(lat) == len(want) else 9.9
+                if len(lat) != len(want) or np.max(np.abs(lat - want)) > 1e-7:
+                    return {"reproduced": True, "key": "positions after a repeated throw on one object are wrong (state kept from an earlier throw)",
+                            "detail": f"throw number {rnd+1} on the same RegionGeom object: latitude at s = 0 differs from that throw's ground spots by up to {worst} rad"}
+        return {"reproduced": False, "key": None, "detail": "repeated throws on one object give consistent positions"}
+    if "kept exactly" in ob or "emergence angle ==" in ob or "cos(theta_TrN)" in ob:
+        r = _replay_mask()
+        if r:
+            return {"reproduced": True, "key": "throw: validity mask differs from (upward-going and beta < 42 deg)", "detail": r}
     return {"reproduced": False, "key": None, "detail": "no replay for this obligation"}
+
+
+def _replay_mask():
+    """Real throw on configurations whose trajectories reach the 42 deg cut; the mask and beta are
+    recomputed from explicit vectors built from the public per-event arrays."""
+    import warnings
+
+    import numpy as np
+
+    from nuspacesim.config import NssConfig
+    from nuspacesim.simulation.geometry.region_geometry import RegionGeom
+
+    rng = np.random.default_rng(11)
+    for alt, limb_deg in ((525.0, 40.0), (33.0, 50.0), (9000.0, 7.0), (525.0, 7.0)):
+        cfg = NssConfig()
+        cfg.detector.initial_position.altitude = alt
+        cfg.simulation.angle_from_limb = np.radians(limb_deg)
+        with warnings.catch_warnings(), np.errstate(all="ignore"):
+            warnings.simplefilter("ignore")
+            g = RegionGeom(cfg)
+            aH = np.pi / 2 - np.arccos(g.earth_radius / g.core_alt)
+            if cfg.simulation.angle_from_limb >= aH:
+                cfg.simulation.angle_from_limb = 0.95 * aH
+                g = RegionGeom(cfg)
+            u = rng.uniform(1e-6, 1 - 1e-6, (4, 20000))
+            g.throw(u)
+        cNV = (g.core_alt**2 - g.earth_rad_2 - g.losPathLen**2) / (2 * g.earth_radius * g.losPathLen)
+        sNV = np.sqrt(np.clip(1 - cNV**2, 0, None))
+        th, ph = g.thetaTrSubV, g.phiTrSubV
+        tz = np.cos(th) * cNV - np.sin(th) * sNV * np.cos(ph)  # trajectory . local vertical
+        beta = 90.0 - np.degrees(np.arccos(np.clip(tz, -1, 1)))
+        want = (tz >= 0) & (beta < 42.0)
+        edge = np.abs(beta - 42.0) < 1e-9
+        nbad = int(np.sum((want != g.event_mask) & ~edge))
+        if nbad:
+            k = int(np.argmax((want != g.event_mask) & ~edge))
+            return (f"detector {alt} km, angle from limb {np.degrees(cfg.simulation.angle_from_limb):.1f} deg: {nbad} of 20000 events have a mask different from "
+                    f"(upward and beta < 42 deg); e.g. event {k}: beta = {beta[k]:.3f} deg, trajectory.vertical = {tz[k]:.4f}, kept = {bool(g.event_mask[k])}")
+        if np.max(np.abs(g.betaTrSubN - beta)) > 1e-6:
+            return f"detector {alt} km: reported emergence angle differs from 90 deg - angle(trajectory, vertical) by {np.max(np.abs(g.betaTrSubN - beta))} deg"
+    return None
 
 
 MANIFEST_ENTRY = {
